@@ -141,3 +141,70 @@ func Verif_C14_update_sequence() {
 	}
 	verifapi.Cover("sequence-done")
 }
+
+// verifRescanWhileRunnerWrites: the daemon starts again on a data directory whose unit still has a
+// live detached runner, and scans the unit at the very moment the runner (another process: its own
+// StatusFileData object, the same files) rewrites the status record - every schedule within the
+// pre-emption bound, every file-system operation of the model being a scheduling point.
+//   - unit found Running: the runner records the final state; the daemon only reads. The daemon never
+//     takes a half-written record for a real one: it builds the unit as its registered type (so that it
+//     is followed), reports a whole record, and the file ends up exactly as the runner wrote it.
+//   - unit found Pending: the runner records its process ID (the only field it touches), the daemon
+//     marks the unit failed. Both updates are in the final record, whatever the order.
+func verifRescanWhileRunnerWrites() {
+	dir := verifapi.TempDir()
+	udir := dir + "/A/unit0041"
+	file := udir + "/status"
+	verifapi.Assert("mkdir", osMkdirAll(udir) == nil)
+	foundRunning := verifapi.Bool()
+	state0 := WorkStatePending
+	if foundRunning {
+		state0 = WorkStateRunning
+	}
+	rec := &StatusFileData{State: state0, Detail: "d", StdoutSize: 3, WorkType: "cmd", ExtraData: &CommandExtraData{Pid: 7, Params: "p"}}
+	verifapi.Assert("record-saved", rec.Save(file) == nil)
+	verifapi.ExploreSchedules(2)
+	done := make(chan error, 1)
+	go func() {
+		sfd := &StatusFileData{ExtraData: &CommandExtraData{}}
+		done <- sfd.UpdateFullStatus(file, func(st *StatusFileData) {
+			if foundRunning {
+				st.State, st.Detail, st.StdoutSize = WorkStateSucceeded, "exit 0", 12
+			} else if ced, ok := st.ExtraData.(*CommandExtraData); ok {
+				ced.Pid = 9
+			}
+		})
+	}()
+	wk := verifWorkceptor(dir)
+	verifapi.Assert("worker-type-registered-again", wk.w.RegisterWorker("cmd", verifCmdCfg().NewWorker, false) == nil)
+	werr := <-done
+	verifapi.ExploreSchedules(0)
+	verifapi.Quiesce()
+	verifapi.Cover("scan-and-rewrite-finished")
+	verifapi.Assert("runner-update-succeeds", werr == nil)
+	unit, listed := wk.w.activeUnits["unit0041"]
+	verifapi.Assert("unit-listed-after-restart", listed)
+	_, followed := unit.(*commandUnit)
+	verifapi.Assert("unit-rebuilt-as-its-registered-type", followed)
+	final := &StatusFileData{ExtraData: &CommandExtraData{}}
+	verifapi.Assert("final-record-readable", final.Load(file) == nil)
+	fced, _ := final.ExtraData.(*CommandExtraData)
+	verifapi.Assert("work-type-and-parameters-kept", verifapi.All(final.WorkType == "cmd", fced != nil, fced.Params == "p"))
+	if foundRunning {
+		verifapi.Assert("file-is-exactly-what-the-runner-wrote", verifapi.All(final.State == WorkStateSucceeded, final.Detail == "exit 0", final.StdoutSize == 12, fced.Pid == 7))
+		st := unit.Status()
+		verifapi.Assert("daemon-holds-a-whole-record", verifapi.All(st.WorkType == "cmd",
+			verifapi.Any(verifapi.All(st.State == WorkStateRunning, st.StdoutSize == 3, st.Detail == "d"),
+				verifapi.All(st.State == WorkStateSucceeded, st.StdoutSize == 12, st.Detail == "exit 0"))))
+	} else {
+		verifapi.Assert("runner-update-not-lost", fced.Pid == 9)
+		verifapi.Assert("daemon-update-not-lost", verifapi.All(final.State == WorkStateFailed, final.Detail == "Pending at restart"))
+	}
+	wk.cancel()
+	verifapi.Quiesce()
+	verifapi.Assert("no-lock-left-held", verifapi.HeldLocks() == 0)
+}
+
+// Verif_C14_rescan_while_runner_writes: see verifRescanWhileRunnerWrites (atomicity of the record
+// with respect to the restarted daemon's scan).
+func Verif_C14_rescan_while_runner_writes() { verifRescanWhileRunnerWrites() }
